@@ -227,6 +227,46 @@ def _entry_points_agree(names):
     return fn
 
 
+def _long_junk_blocks(names):
+    """long blocks of unrecognised lines (a 14-line header, a 12-line block in the middle, a 13-line trailer): every
+    non-blank one is skipped with its own warning and nothing else changes"""
+
+    def fn(P, g):
+        fs = install_io(P, g)
+        logs = capture_logs(g)
+        ids = {k: P.int("id_" + k) for k in ("a2", "b2", "a3", "b3", "l2", "l3", "p2")}
+        P.distinct(list(ids.values()))
+        pid = P.int("pid")
+        S = make_specs(P, g, ids, pid)
+
+        def block(n, off):
+            return [JUNK[(off + 3 * i) % len(JUNK)] for i in range(n)]
+
+        head, mid, tail = block(14, 0), block(12, 5), block(13, 2)
+        body = [S[nm].text(" ", "\n") for nm in names]
+        half = len(body) // 2
+        text = "".join(j + "\n" for j in head) + "".join(body[:half]) + "".join(j + "\n" for j in mid) + "".join(body[half:]) + "".join(j + "\n" for j in tail)
+        fs.files["in.g2o"] = text
+        n_junk = len([j for j in head + mid + tail if j.strip()])
+        graph = g.Graph.from_g2o("in.g2o")
+        P.check("warnings_one_per_unrecognised_line", len([r for r in logs.records if r.levelno >= 30]) == n_junk)
+        exp_v = [S[nm] for nm in names if S[nm].kind == "vertex"]
+        exp_e = [S[nm] for nm in names if S[nm].kind in ("odom", "lmk")]
+        P.check("vertex_count", len(graph._vertices) == len(exp_v))
+        P.check("edge_count", len(graph._edges) == len(exp_e))
+        for i, (v, sp) in enumerate(zip(graph._vertices, exp_v)):
+            check_vertex(P, "v%d(%s)" % (i, sp.kw), v, sp.expect)
+        for i, (e, sp) in enumerate(zip(graph._edges, exp_e)):
+            check_edge(P, g, "e%d(%s)" % (i, sp.kw), e, sp)
+        # the deprecated entry point sees the same file the same way
+        before = len([r for r in logs.records if r.levelno >= 30])
+        g2 = g.load_mod.load_g2o("in.g2o")
+        P.check("load_g2o_same_counts", len(g2._vertices) == len(exp_v) and len(g2._edges) == len(exp_e))
+        P.check("load_g2o_same_warnings", len([r for r in logs.records if r.levelno >= 30]) - before == n_junk)
+
+    return fn
+
+
 def _load_history(P, g):
     """loads do not leave anything behind: after Graph.from_g2o(file, custom_edge_types=[DistEdge]) the same file loaded
     WITHOUT custom types (through either entry point) skips the custom line with one warning, and a load with the custom
@@ -317,6 +357,8 @@ def cases(tier):
     for entry in ["load_g2o", "load_g2o_r2", "load_g2o_r3", "load_g2o_se2", "load_g2o_se3"]:
         add(SE2_FILE, "space", (2,), entry)
         add(SE3_FILE, "tabs", (), entry)
+    out.append(Case("long-junk-blocks-se2", _long_junk_blocks(SE2_FILE), timeout=10, old_timeout=20, validate=1, feas_timeout_ms=1000, val_tol=1e-9))
+    out.append(Case("long-junk-blocks-se3", _long_junk_blocks(SE3_FILE), timeout=10, old_timeout=20, validate=1, feas_timeout_ms=1000, val_tol=1e-9))
     out.append(Case("load-history-custom-types", _load_history, timeout=10, validate=1, feas_timeout_ms=1000))
     out.append(Case("entrypoints-se2", _entry_points_agree(SE2_FILE), timeout=10, validate=1, feas_timeout_ms=1000))
     out.append(Case("entrypoints-se3", _entry_points_agree(SE3_FILE), timeout=10, validate=1, feas_timeout_ms=1000))
